@@ -364,3 +364,888 @@ Proof.
   - intros hi k q hd H1 H2 H3. unfold handle_ok; simpl. rewrite (mod_lst_train _ _ _ _ _ _ E).
     apply (HH hi k q hd H1 H2 H3).
 Qed.
+
+(* ====================================================================== module call *)
+Definition fire_of (hooks : list hook) (tr q : bool) (e : entry) : list event :=
+  match nth_error hooks (e_hook e) with
+  | Some k => if armed k tr then [EFire (e_hook e) (tag_of k q)] else []
+  | None => []
+  end.
+
+Lemma run_entry_ok w m q tr e : entry_ok w m q e -> run_entry (w_hooks w) tr q e = Some (fire_of (w_hooks w) tr q e).
+Proof.
+  intros [_ [k [Hk [Ha _]]]]. unfold run_entry, fire_of. rewrite Hk, Ha. reflexivity.
+Qed.
+
+Lemma run_pre_ok w m tr es :
+  (forall e, In e es -> entry_ok w m true e) ->
+  run_pre (w_hooks w) tr es = (flat_map (fire_of (w_hooks w) tr true) es, true).
+Proof.
+  induction es; simpl; intros H; auto.
+  rewrite (run_entry_ok w m true tr a) by auto. rewrite IHes by auto. reflexivity.
+Qed.
+
+Lemma run_post_ok w m tr es :
+  (forall e, In e es -> entry_ok w m false e) ->
+  exists called, run_post (w_hooks w) tr es = (flat_map (fire_of (w_hooks w) tr false) es, true, called).
+Proof.
+  induction es; simpl; intros H; eauto.
+  rewrite (run_entry_ok w m false tr a) by auto. destruct IHes as [c Hc]; auto. rewrite Hc. eauto.
+Qed.
+
+Lemma run_always_ok w m tr es :
+  (forall e, In e es -> entry_ok w m false e) ->
+  run_always (w_hooks w) tr [] es =
+  flat_map (fun e => if e_always e then fire_of (w_hooks w) tr false e else []) es.
+Proof.
+  induction es; simpl; intros H; auto.
+  rewrite (run_entry_ok w m false tr a) by auto. rewrite IHes by auto.
+  rewrite andb_true_r. reflexivity.
+Qed.
+
+(* the events of a module call when no handle dangles *)
+Definition call_pre (w : world) (m : nat) : list event :=
+  match nth_error (w_mods w) m with
+  | Some md => flat_map (fire_of (w_hooks w) (m_training md) true) (m_pre md)
+  | None => []
+  end.
+Definition call_post (w : world) (m : nat) (fail : bool) : list event :=
+  match nth_error (w_mods w) m with
+  | Some md => flat_map (fun e => if negb fail || e_always e then fire_of (w_hooks w) (m_training md) false e else [])
+                        (m_post md)
+  | None => []
+  end.
+
+Lemma call_ok w m fail :
+  SInv w -> m < length (w_mods w) ->
+  call w m fail = (call_pre w m ++ EFwd m :: call_post w m fail, if fail then Some EValue else None).
+Proof.
+  intros [HE _ _] Hm. unfold call, call_pre, call_post.
+  destruct (nth_error (w_mods w) m) as [md|] eqn:E; [|apply nth_error_None in E; lia].
+  assert (Hpre : forall e, In e (m_pre md) -> entry_ok w m true e).
+  { intros e Hin. apply HE. unfold mod_lst; rewrite E; auto. }
+  assert (Hpost : forall e, In e (m_post md) -> entry_ok w m false e).
+  { intros e Hin. apply HE. unfold mod_lst; rewrite E; auto. }
+  rewrite (run_pre_ok w m _ _ Hpre). simpl.
+  destruct fail; simpl.
+  - rewrite (run_always_ok w m _ _ Hpost). rewrite <- app_assoc. reflexivity.
+  - destruct (run_post_ok w m (m_training md) _ Hpost) as [c Hc]. rewrite Hc.
+    rewrite <- app_assoc. simpl. reflexivity.
+Qed.
+
+(* counting the fires of one hook object *)
+Lemma count_fire_app h a b : count_fire h (a ++ b) = count_fire h a + count_fire h b.
+Proof. unfold count_fire. rewrite filter_app, app_length. auto. Qed.
+
+Lemma count_fire_fire_of hooks tr q e h :
+  count_fire h (fire_of hooks tr q e) =
+  if e_hook e =? h then match nth_error hooks h with Some k => b2n (armed k tr) | None => 0 end else 0.
+Proof.
+  unfold fire_of, count_fire. destruct (Nat.eqb_spec (e_hook e) h) as [->|Hne].
+  - destruct (nth_error hooks h); auto. destruct (armed h0 tr); simpl; auto. rewrite Nat.eqb_refl; auto.
+  - destruct (nth_error hooks (e_hook e)); auto. destruct (armed h0 tr); simpl; auto.
+    destruct (Nat.eqb_spec (e_hook e) h); try congruence; auto.
+Qed.
+
+Lemma count_fire_flat hooks tr q (g : entry -> bool) es h :
+  NoDup (map e_hook es) ->
+  count_fire h (flat_map (fun e => if g e then fire_of hooks tr q e else []) es) =
+  if existsb (fun e => (e_hook e =? h) && g e) es
+  then match nth_error hooks h with Some k => b2n (armed k tr) | None => 0 end else 0.
+Proof.
+  induction es; simpl; intros Hd; auto. inversion Hd; subst.
+  rewrite count_fire_app, IHes by auto.
+  destruct (g a) eqn:Eg.
+  - rewrite count_fire_fire_of. destruct (Nat.eqb_spec (e_hook a) h) as [E|E]; simpl; auto.
+    destruct (existsb _ es) eqn:Ex; [|lia].
+    exfalso. apply existsb_exists in Ex. destruct Ex as [x [Hx Hx2]].
+    apply andb_prop in Hx2. destruct Hx2 as [Hx2 _]. apply Nat.eqb_eq in Hx2.
+    apply H1. rewrite E, <- Hx2. apply in_map; auto.
+  - rewrite andb_false_r. simpl. reflexivity.
+Qed.
+
+(* each hook object occurs at most once in a hook dictionary *)
+Lemma sinv_nodup_hooks w m q : SInv w -> NoDup (map e_hook (mod_lst (w_mods w) m q)).
+Proof.
+  intros [HE HN _]. specialize (HN m q).
+  assert (Hinj : forall a b, In a (mod_lst (w_mods w) m q) -> In b (mod_lst (w_mods w) m q) ->
+                             e_hook a = e_hook b -> e_id a = e_id b).
+  { intros a b Ha Hb E. destruct (HE m q a Ha) as [_ [k1 [Hk1 [_ [Hh1 _]]]]].
+    destruct (HE m q b Hb) as [_ [k2 [Hk2 [_ [Hh2 _]]]]]. rewrite E, Hk2 in Hk1. inversion Hk1; subst k2.
+    rewrite Hh2 in Hh1. inversion Hh1; auto. }
+  revert HN Hinj. generalize (mod_lst (w_mods w) m q). induction l; simpl; intros; constructor.
+  - intros Hin. apply in_map_iff in Hin. destruct Hin as [x [Ex Hx]].
+    inversion HN; subst. apply H1. rewrite <- (Hinj x a); auto. apply in_map; auto.
+  - inversion HN; subst. apply IHl; auto.
+Qed.
+
+Lemma armed_a_armed k tr : armed k tr = a_armed (abs_hook k) tr.
+Proof. unfold armed, a_armed; simpl. destruct (k_te k), (k_ee k), tr; reflexivity. Qed.
+
+(* "registered in position q on module m", read from the handle field, equals the abstract reading *)
+Lemma reg_iff n k q m :
+  hook_ok n k -> k_alive k = true ->
+  ((exists i, hnd k q = Some (mkHandle m q i)) <-> (reg_on (abs_hook k) m = true /\ c_has (k_cfg k) q = true)).
+Proof.
+  intros [_ _ _ _ _ Hreg] Ha. unfold reg_on, abs_hook, abs_reg; simpl. rewrite Ha.
+  split.
+  - intros [i Hi].
+    assert (R : registered k = true).
+    { unfold registered. destruct q; simpl in Hi; rewrite Hi; simpl; auto; try apply orb_true_r. }
+    destruct (Hreg R) as [m0 Hm0].
+    destruct (c_has (k_cfg k) q) eqn:Ec.
+    + destruct (proj1 (Hm0 q) Ec) as [j Hj]. rewrite Hj in Hi. inversion Hi; subst.
+      split; auto.
+      destruct (c_has (k_cfg k) true) eqn:Et.
+      * destruct (proj1 (Hm0 true) Et) as [j' Hj']. simpl in Hj'. rewrite Hj'. simpl. apply Nat.eqb_refl.
+      * pose proof (proj2 (Hm0 true) Et) as Hn. simpl in Hn. rewrite Hn.
+        destruct q; [congruence|]. simpl in Hj. rewrite Hj. simpl. apply Nat.eqb_refl.
+    + rewrite (proj2 (Hm0 q) Ec) in Hi. discriminate.
+  - intros [Hr Hc].
+    assert (R : registered k = true).
+    { unfold registered. destruct (k_preh k); simpl; auto. destruct (k_posth k); simpl; auto. }
+    destruct (Hreg R) as [m0 Hm0]. destruct (proj1 (Hm0 q) Hc) as [i Hi].
+    exists i. rewrite Hi. f_equal. f_equal.
+    destruct (c_has (k_cfg k) true) eqn:Et.
+    + destruct (proj1 (Hm0 true) Et) as [j' Hj']. simpl in Hj'. rewrite Hj' in Hr. simpl in Hr.
+      apply Nat.eqb_eq in Hr; auto.
+    + pose proof (proj2 (Hm0 true) Et) as Hn. simpl in Hn. rewrite Hn in Hr.
+      destruct q; [congruence|]. simpl in Hi. rewrite Hi in Hr. simpl in Hr. apply Nat.eqb_eq in Hr; auto.
+Qed.
+
+Lemma existsb_entry w m q h (g : entry -> bool) :
+  SInv w ->
+  (existsb (fun e => (e_hook e =? h) && g e) (mod_lst (w_mods w) m q) = true <->
+   exists k i, nth_error (w_hooks w) h = Some k /\ k_alive k = true /\ hnd k q = Some (mkHandle m q i) /\
+               g (mkEntry i h (alw (k_cfg k) q)) = true).
+Proof.
+  intros [HE HN HH]. rewrite existsb_exists. split.
+  - intros [e [Hin He]]. apply andb_prop in He. destruct He as [He Hg]. apply Nat.eqb_eq in He.
+    destruct (HE m q e Hin) as [_ [k [Hk [Ha [Hh Hal]]]]].
+    exists k, (e_id e). rewrite <- He. repeat split; auto.
+    rewrite <- Hal. destruct e; simpl; auto.
+  - intros [k [i [Hk [Ha [Hh Hg]]]]]. destruct (HH h k q _ Hk Ha Hh) as [_ Hin]. simpl in Hin.
+    eexists; split; [exact Hin|]. simpl. rewrite Nat.eqb_refl. auto.
+Qed.
+
+Lemma nth_error_abs_hooks w h : nth_error (a_hooks (abs w)) h = option_map abs_hook (nth_error (w_hooks w) h).
+Proof. unfold abs; simpl. apply nth_error_map. Qed.
+Lemma nth_error_abs_train w m : nth_error (a_train (abs w)) m = option_map m_training (nth_error (w_mods w) m).
+Proof. unfold abs; simpl. apply nth_error_map. Qed.
+
+(* generic counting statement for one position; b = true: every registered hook is dispatched,
+   b = false: only the always_call ones (failing forward) *)
+Lemma count_position w m md q b h :
+  Inv w -> nth_error (w_mods w) m = Some md ->
+  count_fire h (flat_map (fun e => if b || e_always e then fire_of (w_hooks w) (m_training md) q e else [])
+                         (lst md q)) =
+  b2n (match nth_error (w_hooks w) h with
+       | Some k => k_alive k && reg_on (abs_hook k) m && c_has (k_cfg k) q && a_armed (abs_hook k) (m_training md)
+                   && (b || alw (k_cfg k) q)
+       | None => false
+       end).
+Proof.
+  intros [HS HP] Hmd.
+  assert (El : lst md q = mod_lst (w_mods w) m q) by (unfold mod_lst; rewrite Hmd; auto).
+  rewrite El, count_fire_flat by (apply sinv_nodup_hooks; auto).
+  pose proof (existsb_entry w m q h (fun e => b || e_always e) HS) as Hex. simpl in Hex.
+  destruct (nth_error (w_hooks w) h) as [k|] eqn:Hk.
+  - destruct (k_alive k) eqn:Ha; simpl.
+    + pose proof (reg_iff _ k q m (HP h k Hk Ha) Ha) as Hr.
+      destruct (existsb _ _) eqn:Ex.
+      * destruct (proj1 Hex eq_refl) as [k0 [i [Hk0 [_ [Hh Hg]]]]]. inversion Hk0; subst k0.
+        destruct (proj1 Hr (ex_intro _ i Hh)) as [R1 R2]. rewrite R1, R2, Hg, armed_a_armed. simpl.
+        rewrite andb_true_r. auto.
+      * destruct (reg_on (abs_hook k) m && c_has (k_cfg k) q && (b || alw (k_cfg k) q)) eqn:Eb.
+        -- apply andb_prop in Eb. destruct Eb as [Eb E3]. apply andb_prop in Eb. destruct Eb as [E1 E2].
+           destruct (proj2 Hr (conj E1 E2)) as [i Hi].
+           assert (false = true) by (apply Hex; exists k, i; auto). discriminate.
+        -- destruct (reg_on (abs_hook k) m), (c_has (k_cfg k) q), (b || alw (k_cfg k) q);
+             simpl in *; try discriminate; rewrite ?andb_false_r; auto.
+    + destruct (existsb _ _) eqn:Ex; auto.
+      destruct (proj1 Hex eq_refl) as [k0 [i [Hk0 [Ha0 _]]]]. congruence.
+  - destruct (existsb _ _) eqn:Ex; auto.
+Qed.
+
+Lemma fire_of_shape hooks tr q e x :
+  In x (fire_of hooks tr q e) ->
+  exists k, nth_error hooks (e_hook e) = Some k /\ x = EFire (e_hook e) (tag_of k q).
+Proof.
+  unfold fire_of. destruct (nth_error hooks (e_hook e)) as [k|]; simpl; [|tauto].
+  destruct (armed k tr); simpl; [|tauto]. intros [<-|[]]. eauto.
+Qed.
+
+(* THE CALL THEOREM (state level): with the invariant, a module call emits
+   pre-fires ++ [forward] ++ post-fires; each hook object fires in each part exactly as often (0 or 1)
+   as the abstract machine says; the callable run is the one configured. *)
+Theorem call_spec w m fail :
+  Inv w -> m < length (w_mods w) ->
+  exists pres posts,
+    call w m fail = (pres ++ EFwd m :: posts, if fail then Some EValue else None) /\
+    (forall h, count_fire h pres = b2n (a_fires_pre (abs w) h m)) /\
+    (forall h, count_fire h posts = b2n (a_fires_post (abs w) h m fail)) /\
+    (forall x, In x pres -> exists h, x = EFire h (a_tag (abs w) h true)) /\
+    (forall x, In x posts -> exists h, x = EFire h (a_tag (abs w) h false)).
+Proof.
+  intros HI Hm. exists (call_pre w m), (call_post w m fail).
+  split; [apply call_ok; [apply HI|auto]|].
+  unfold call_pre, call_post, a_fires_pre, a_fires_post, a_tag.
+  destruct (nth_error (w_mods w) m) as [md|] eqn:Hmd; [|apply nth_error_None in Hmd; lia].
+  assert (Htag : forall q e x, In x (fire_of (w_hooks w) (m_training md) q e) ->
+            exists h, x = EFire h match nth_error (a_hooks (abs w)) h with
+                                   | Some k => match c_kind (a_cfg k) with KState => 2 | _ => if q then 0 else 1 end
+                                   | None => 0 end).
+  { intros q e x Hx. apply fire_of_shape in Hx. destruct Hx as [k [Hk ->]]. exists (e_hook e).
+    rewrite nth_error_abs_hooks, Hk. reflexivity. }
+  repeat split.
+  - intros h. rewrite nth_error_abs_hooks, nth_error_abs_train, Hmd. simpl.
+    change (flat_map (fire_of (w_hooks w) (m_training md) true) (m_pre md))
+      with (flat_map (fun e => if true || e_always e then fire_of (w_hooks w) (m_training md) true e else [])
+                     (lst md true)).
+    rewrite (count_position w m md true true h HI Hmd).
+    destruct (nth_error (w_hooks w) h); simpl; auto. rewrite andb_true_r. reflexivity.
+  - intros h. rewrite nth_error_abs_hooks, nth_error_abs_train, Hmd. simpl.
+    change (m_post md) with (lst md false).
+    rewrite (count_position w m md false (negb fail) h HI Hmd).
+    destruct (nth_error (w_hooks w) h); simpl; auto.
+  - intros x Hx. apply in_flat_map in Hx. destruct Hx as [e [_ Hx]].
+    destruct (Htag true e x Hx) as [h Hh]. exists h. exact Hh.
+  - intros x Hx. apply in_flat_map in Hx. destruct Hx as [e [_ Hx]].
+    destruct (negb fail || e_always e); [|destruct Hx].
+    destruct (Htag false e x Hx) as [h Hh]. exists h. exact Hh.
+Qed.
+
+(* ====================================================================== every operation preserves the invariant
+   and commutes with the abstraction *)
+Lemma is_some_abs_reg k : k_alive k = true -> is_some (abs_reg k) = registered k.
+Proof. intros Ha. unfold abs_reg, registered. rewrite Ha. destruct (k_preh k), (k_posth k); reflexivity. Qed.
+
+Lemma abs_upd w h k' mods' nx :
+  abs (mkW (upd (w_hooks w) h k') mods' nx) = mkAW (upd (a_hooks (abs w)) h (abs_hook k')) (map m_training mods').
+Proof. unfold abs; simpl. rewrite map_upd. reflexivity. Qed.
+
+Lemma abs_length_train w : length (a_train (abs w)) = length (w_mods w).
+Proof. unfold abs; simpl. apply map_length. Qed.
+
+Lemma registered_false k : registered k = false -> k_preh k = None /\ k_posth k = None.
+Proof. unfold registered. destruct (k_preh k), (k_posth k); simpl; intros; try discriminate; auto. Qed.
+
+Lemma pinv_upd w h k k' mods' nx :
+  PInv w -> nth_error (w_hooks w) h = Some k -> length mods' = length (w_mods w) ->
+  (k_alive k' = true -> hook_ok (length (w_mods w)) k') ->
+  PInv (mkW (upd (w_hooks w) h k') mods' nx).
+Proof.
+  intros HP Hk Hl Hok hi k0. simpl. rewrite Hl, nth_error_upd.
+  destruct (Nat.eqb_spec h hi) as [<-|]; simpl.
+  - rewrite (proj2 (Nat.ltb_lt _ _) (nth_error_Some_lt _ _ _ Hk)). intros E; inversion E; subst; auto.
+  - apply HP.
+Qed.
+
+(* --- deregister --- *)
+Lemma deregister_sound w h k :
+  Inv w -> nth_error (w_hooks w) h = Some k -> k_alive k = true ->
+  Inv (hook_deregister w h k) /\
+  abs (hook_deregister w h k) = a_set (abs w) h (mkA (k_cfg k) true (k_te k) (k_ee k) None).
+Proof.
+  intros [HS HP] Hk Ha. unfold hook_deregister. split; [split|].
+  - apply sinv_detach; auto. right; destruct pre; reflexivity.
+  - eapply pinv_upd; eauto. apply detach_handles_length.
+    intros _. destruct (HP h k Hk Ha). constructor; simpl; auto. discriminate.
+  - rewrite abs_upd, map_training_detach. unfold a_set, abs_hook, abs_reg; simpl. rewrite Ha. reflexivity.
+Qed.
+
+(* --- delete --- *)
+Lemma delete_sound w h k :
+  Inv w -> nth_error (w_hooks w) h = Some k -> k_alive k = true ->
+  let w' := mkW (upd (w_hooks w) h (mkHook (k_cfg k) false (k_te k) (k_ee k) (k_preh k) (k_posth k) None))
+                (match k_fin k with Some (a, b) => detach_handles (w_mods w) a b | None => w_mods w end) (w_next w) in
+  Inv w' /\ abs w' = a_set (abs w) h (mkA (k_cfg k) false (k_te k) (k_ee k) None).
+Proof.
+  intros [HS HP] Hk Ha.
+  assert (Em : match k_fin k with Some (a, b) => detach_handles (w_mods w) a b | None => w_mods w end
+               = detach_handles (w_mods w) (k_preh k) (k_posth k)).
+  { rewrite (p_fin _ _ (HP h k Hk Ha)). destruct (registered k) eqn:R; auto.
+    destruct (registered_false k R) as [-> ->]. reflexivity. }
+  simpl. rewrite Em. split; [split|].
+  - apply sinv_detach; auto.
+  - eapply pinv_upd; eauto. apply detach_handles_length. simpl; discriminate.
+  - rewrite abs_upd, map_training_detach. reflexivity.
+Qed.
+
+(* --- trainexec / evalexec assignment --- *)
+Lemma setexec_sound w h k k' :
+  Inv w -> nth_error (w_hooks w) h = Some k -> k_alive k = true ->
+  k_alive k' = k_alive k -> k_cfg k' = k_cfg k -> k_preh k' = k_preh k -> k_posth k' = k_posth k -> k_fin k' = k_fin k ->
+  Inv (set_hook w h k').
+Proof.
+  intros [HS HP] Hk Ha E1 E2 E3 E4 E5. unfold set_hook. split.
+  - eapply sinv_same; eauto.
+  - eapply pinv_upd; eauto. intros _. destruct (HP h k Hk Ha) as [F1 F2 F3 F4 F5 F6].
+    assert (ER : registered k' = registered k) by (unfold registered; rewrite E3, E4; auto).
+    assert (Eh : forall p, hnd k' p = hnd k p) by (destruct p; simpl; auto).
+    constructor; rewrite ?E2, ?E3, ?E4, ?E5, ?ER; auto.
+    intros R. destruct (F6 R) as [m0 Hm0]. exists m0. intros p. rewrite Eh. apply Hm0.
+Qed.
+
+(* --- register --- *)
+Lemma reg_at_step pre w h k m w1 k1 :
+  SInv w -> nth_error (w_hooks w) h = Some k -> k_alive k = true -> hnd k pre = None -> m < length (w_mods w) ->
+  reg_at pre w h k m = Some (w1, k1) ->
+  SInv w1 /\ k1 = set_hnd k pre (Some (mkHandle m pre (w_next w))) /\ w_hooks w1 = upd (w_hooks w) h k1 /\
+  map m_training (w_mods w1) = map m_training (w_mods w) /\ length (w_mods w1) = length (w_mods w).
+Proof.
+  intros HS Hk Ha Hn Hm. unfold reg_at. destruct (c_bad (k_cfg k) pre); [discriminate|].
+  intros E; inversion E; subst; clear E. simpl.
+  split; [apply sinv_add; auto|]. repeat split; auto using map_training_set, mod_set_lst_length.
+Qed.
+
+Lemma kwargs_ok_cases c :
+  kwargs_ok c = negb (c_has c true && c_bad c true) && negb (c_has c false && c_bad c false).
+Proof. reflexivity. Qed.
+
+(* the object after a complete Hook.register *)
+Lemma hook_ok_registered n k m i j :
+  hook_ok n k -> registered k = false ->
+  let preh := if c_pre (k_cfg k) then Some (mkHandle m true i) else None in
+  let posth := if c_post (k_cfg k) then Some (mkHandle m false j) else None in
+  hook_ok n (mkHook (k_cfg k) (k_alive k) (k_te k) (k_ee k) preh posth (Some (preh, posth))).
+Proof.
+  intros [F1 F2 F3 F4 F5 F6] R. simpl. constructor; simpl; auto.
+  - unfold registered; simpl. destruct (c_pre (k_cfg k)), (c_post (k_cfg k)); simpl in *; auto; discriminate.
+  - intros _. exists m. intros [|]; simpl; destruct (c_pre (k_cfg k)), (c_post (k_cfg k));
+      split; intros; try discriminate; eauto.
+Qed.
+
+Lemma register_sound w h k m :
+  Inv w -> nth_error (w_hooks w) h = Some k -> k_alive k = true ->
+  Inv (fst (hook_register w h k m)) /\
+  abs (fst (hook_register w h k m)) = fst (a_register (abs w) h (abs_hook k) m) /\
+  snd (hook_register w h k m) = snd (a_register (abs w) h (abs_hook k) m).
+Proof.
+  intros HI Hk Ha. pose proof HI as [HS HP]. pose proof (HP h k Hk Ha) as Hok.
+  pose proof (nth_error_Some_lt _ _ _ Hk) as Hlt.
+  unfold hook_register, a_register. simpl a_reg. rewrite (is_some_abs_reg k Ha).
+  destruct (registered k) eqn:R; [simpl; auto|].
+  destruct (registered_false k R) as [Ep Eq].
+  rewrite abs_length_train.
+  destruct (nth_error (w_mods w) m) as [md|] eqn:Hmd.
+  2:{ apply nth_error_None in Hmd. destruct (Nat.ltb_spec m (length (w_mods w))); try lia. simpl; auto. }
+  pose proof (nth_error_Some_lt _ _ _ Hmd) as Hm.
+  rewrite (proj2 (Nat.ltb_lt _ _) Hm). simpl negb. cbv iota.
+  simpl a_cfg. unfold kwargs_ok.
+  pose proof (p_safe _ _ Hok) as Hsafe. unfold safe_cfg in Hsafe.
+  pose proof (p_some _ _ Hok) as Hsome.
+  pose proof (hook_ok_registered _ k m (w_next w) (if c_pre (k_cfg k) then S (w_next w) else w_next w) Hok R) as Hfinal.
+  simpl in Hfinal.
+  assert (Habs : forall preh posth, (preh <> None \/ posth <> None) ->
+            (forall hd, preh = Some hd -> hd_mod hd = m) -> (forall hd, posth = Some hd -> hd_mod hd = m) ->
+            abs_hook (mkHook (k_cfg k) (k_alive k) (k_te k) (k_ee k) preh posth (Some (preh, posth))) =
+            mkA (k_cfg k) (k_alive k) (k_te k) (k_ee k) (Some m)).
+  { intros preh posth Hne H1 H2. unfold abs_hook, abs_reg; simpl. rewrite Ha. f_equal.
+    destruct preh as [hd|]; [rewrite (H1 hd); auto|]. destruct posth as [hd|]; [rewrite (H2 hd); auto|].
+    destruct Hne; congruence. }
+  (* first statement *)
+  destruct (c_pre (k_cfg k)) eqn:Cpre.
+  - (* a prehook exists *)
+    destruct (reg_at true w h k m) as [[w1 k1]|] eqn:R1.
+    2:{ unfold reg_at in R1. simpl c_bad in R1. destruct (c_pre_bad (k_cfg k)); [|discriminate]. simpl; auto. }
+    assert (Cb : c_pre_bad (k_cfg k) = false).
+    { unfold reg_at in R1. simpl c_bad in R1. destruct (c_pre_bad (k_cfg k)); [discriminate|auto]. }
+    destruct (reg_at_step true w h k m w1 k1 HS Hk Ha Ep Hm R1) as [HS1 [Ek1 [Eh1 [Et1 El1]]]].
+    assert (Hk1 : nth_error (w_hooks w1) h = Some k1) by (rewrite Eh1; apply nth_error_upd_eq; auto).
+    assert (Ha1 : k_alive k1 = true) by (rewrite Ek1, set_hnd_alive; auto).
+    assert (Ec1 : k_cfg k1 = k_cfg k) by (rewrite Ek1, set_hnd_cfg; auto).
+    assert (En : w_next w1 = S (w_next w)).
+    { unfold reg_at in R1. destruct (c_bad (k_cfg k) true); [discriminate|]. inversion R1; reflexivity. }
+    rewrite Cb. simpl.
+    destruct (c_post (k_cfg k)) eqn:Cpost.
+    + (* and a posthook *)
+      rewrite Cb in Hsafe. simpl in Hsafe. destruct (c_post_bad (k_cfg k)) eqn:Cqb; [discriminate|].
+      destruct (reg_at false w1 h k1 m) as [[w2 k2]|] eqn:R2.
+      2:{ unfold reg_at in R2. rewrite Ec1 in R2. simpl c_bad in R2. rewrite Cqb in R2. discriminate. }
+      assert (En1 : hnd k1 false = None) by (rewrite Ek1; simpl; auto).
+      assert (Hm1 : m < length (w_mods w1)) by lia.
+      destruct (reg_at_step false w1 h k1 m w2 k2 HS1 Hk1 Ha1 En1 Hm1 R2) as [HS2 [Ek2 [Eh2 [Et2 El2]]]].
+      assert (Hk2 : nth_error (w_hooks w2) h = Some k2).
+      { rewrite Eh2. apply nth_error_upd_eq. rewrite Eh1, upd_length; auto. }
+      simpl.
+      assert (E3 : set_fin k2 (Some (k_preh k2, k_posth k2)) =
+                   mkHook (k_cfg k) (k_alive k) (k_te k) (k_ee k) (Some (mkHandle m true (w_next w)))
+                          (Some (mkHandle m false (S (w_next w))))
+                          (Some (Some (mkHandle m true (w_next w)), Some (mkHandle m false (S (w_next w)))))).
+      { rewrite Ek2, Ek1, En. reflexivity. }
+      split; [split|split; auto].
+      * unfold set_hook. apply (sinv_same w2 h k2 _ HS2 Hk2); reflexivity.
+      * unfold set_hook. rewrite E3, Eh2, Eh1, !upd_upd. eapply pinv_upd; eauto. lia.
+      * unfold set_hook. rewrite E3, Eh2, Eh1, !upd_upd. rewrite abs_upd, Et2, Et1.
+        rewrite Habs; [reflexivity|left; discriminate| |]; intros hd E; inversion E; reflexivity.
+    + (* prehook only *)
+      simpl.
+      assert (E3 : set_fin k1 (Some (k_preh k1, k_posth k1)) =
+                   mkHook (k_cfg k) (k_alive k) (k_te k) (k_ee k) (Some (mkHandle m true (w_next w))) None
+                          (Some (Some (mkHandle m true (w_next w)), None))).
+      { rewrite Ek1. unfold set_fin; simpl. rewrite Eq. reflexivity. }
+      split; [split|split; auto].
+      * unfold set_hook. apply (sinv_same w1 h k1 _ HS1 Hk1); reflexivity.
+      * unfold set_hook. rewrite E3, Eh1, !upd_upd. eapply pinv_upd; eauto.
+      * unfold set_hook. rewrite E3, Eh1, !upd_upd. rewrite abs_upd, Et1.
+        rewrite Habs; [reflexivity|left; discriminate| |]; intros hd E; inversion E; reflexivity.
+  - (* posthook only *)
+    simpl in Hsome. rewrite Hsome in *. simpl.
+    destruct (reg_at false w h k m) as [[w2 k2]|] eqn:R2.
+    2:{ unfold reg_at in R2. simpl c_bad in R2. destruct (c_post_bad (k_cfg k)); [|discriminate]. simpl; auto. }
+    assert (Cb : c_post_bad (k_cfg k) = false).
+    { unfold reg_at in R2. simpl c_bad in R2. destruct (c_post_bad (k_cfg k)); [discriminate|auto]. }
+    destruct (reg_at_step false w h k m w2 k2 HS Hk Ha Eq Hm R2) as [HS2 [Ek2 [Eh2 [Et2 El2]]]].
+    assert (Hk2 : nth_error (w_hooks w2) h = Some k2) by (rewrite Eh2; apply nth_error_upd_eq; auto).
+    rewrite Cb. simpl.
+    assert (E3 : set_fin k2 (Some (k_preh k2, k_posth k2)) =
+                 mkHook (k_cfg k) (k_alive k) (k_te k) (k_ee k) None (Some (mkHandle m false (w_next w)))
+                        (Some (None, Some (mkHandle m false (w_next w))))).
+    { rewrite Ek2. unfold set_fin; simpl. rewrite Ep. reflexivity. }
+    split; [split|split; auto].
+    * unfold set_hook. apply (sinv_same w2 h k2 _ HS2 Hk2); reflexivity.
+    * unfold set_hook. rewrite E3, Eh2, !upd_upd. eapply pinv_upd; eauto.
+    * unfold set_hook. rewrite E3, Eh2, !upd_upd. rewrite abs_upd, Et2.
+      rewrite Habs; [reflexivity|right; discriminate| |]; intros hd E; inversion E; reflexivity.
+Qed.
+
+(* --- construction --- *)
+Lemma new_sound w c te ee :
+  Inv w -> safe_cfg c = true -> state_cfg_ok c = true ->
+  Inv (fst (new_hook w c te ee)) /\
+  abs (fst (new_hook w c te ee)) = fst (astep (abs w) (ONew c te ee)) /\
+  snd (new_hook w c te ee) = snd (astep (abs w) (ONew c te ee)).
+Proof.
+  intros HI Hsafe Hst. pose proof HI as [HS HP]. unfold new_hook, astep. rewrite Hst. simpl negb. cbv iota.
+  rewrite abs_length_train.
+  assert (Hfresh : forall (Hsome : c_pre c || c_post c = true) (Hmod : c_kind c = KState -> c_mod c < length (w_mods w)),
+            Inv (mkW (w_hooks w ++ [mkHook c true te ee None None None]) (w_mods w) (w_next w)) /\
+            abs (mkW (w_hooks w ++ [mkHook c true te ee None None None]) (w_mods w) (w_next w)) =
+            mkAW (a_hooks (abs w) ++ [mkA c true te ee None]) (a_train (abs w))).
+  { intros Hsome Hmod. split; [split|].
+    - apply sinv_new; auto.
+    - intros hi k Hk Hal. simpl in Hk. apply nth_error_snoc in Hk. destruct Hk as [Hk|[_ ->]].
+      + apply (HP hi k Hk Hal).
+      + constructor; simpl; auto. discriminate.
+    - unfold abs; simpl. rewrite map_app. reflexivity. }
+  destruct (c_kind c) eqn:Ck.
+  - destruct (c_pre c || c_post c) eqn:Hs; simpl; auto.
+    destruct Hfresh as [H1 H2]; auto. discriminate.
+  - destruct (c_pre c || c_post c) eqn:Hs; simpl; auto.
+    destruct Hfresh as [H1 H2]; auto. discriminate.
+  - destruct (nth_error (w_mods w) (c_mod c)) eqn:Hm.
+    + pose proof (nth_error_Some_lt _ _ _ Hm) as Hlt. rewrite (proj2 (Nat.ltb_lt _ _) Hlt). simpl.
+      destruct Hfresh as [H1 H2]; auto.
+      unfold state_cfg_ok in Hst. rewrite Ck in Hst. destruct (c_pre c), (c_post c); simpl in *; auto; discriminate.
+    + apply nth_error_None in Hm. destruct (Nat.ltb_spec (c_mod c) (length (w_mods w))); try lia. simpl; auto.
+Qed.
+
+(* THE STEP THEOREM: every operation preserves the invariant and is a step of the abstract machine *)
+Theorem step_sound w o :
+  Inv w -> safe_op o = true ->
+  Inv (fst (fst (step w o))) /\
+  abs (fst (fst (step w o))) = fst (astep (abs w) o) /\
+  snd (step w o) = snd (astep (abs w) o).
+Proof.
+  intros HI Hsafe. pose proof HI as [HS HP].
+  assert (Hwith : forall h (f : hook -> world * list event * option err) (g : ahook -> aworld * option err),
+            (forall k, nth_error (w_hooks w) h = Some k -> k_alive k = true ->
+                       Inv (fst (fst (f k))) /\ abs (fst (fst (f k))) = fst (g (abs_hook k)) /\ snd (f k) = snd (g (abs_hook k))) ->
+            Inv (fst (fst (with_hook w h f))) /\ abs (fst (fst (with_hook w h f))) = fst (a_with (abs w) h g) /\
+            snd (with_hook w h f) = snd (a_with (abs w) h g)).
+  { intros h f g Hfg. unfold with_hook, a_with. rewrite nth_error_abs_hooks.
+    destruct (nth_error (w_hooks w) h) as [k|] eqn:Hk; simpl; auto.
+    destruct (k_alive k) eqn:Ha; simpl; auto. }
+  destruct o; simpl step; simpl astep.
+  - (* ONew *)
+    simpl in Hsafe. destruct (state_cfg_ok c) eqn:Hst.
+    + pose proof (new_sound w c te ee HI Hsafe Hst) as Hn. simpl astep in Hn. rewrite Hst in Hn. simpl negb in Hn.
+      cbv iota in Hn. simpl negb. cbv iota. destruct (new_hook w c te ee) as [w' e]. simpl in *. auto.
+    + simpl. auto.
+  - (* ORegister *)
+    apply Hwith. intros k Hk Ha. simpl a_cfg.
+    destruct (c_kind (k_cfg k)) eqn:Ck.
+    + pose proof (register_sound w h k m HI Hk Ha) as Hr. destruct (hook_register w h k m); simpl in *; auto.
+    + pose proof (register_sound w h k m HI Hk Ha) as Hr. destruct (hook_register w h k m); simpl in *; auto.
+    + simpl a_reg. rewrite (is_some_abs_reg k Ha). destruct (registered k); [simpl; auto|].
+      pose proof (register_sound w h k (c_mod (k_cfg k)) HI Hk Ha) as Hr.
+      destruct (hook_register w h k (c_mod (k_cfg k))); simpl in *; auto.
+  - (* ODeregister *)
+    apply Hwith. intros k Hk Ha. simpl. destruct (deregister_sound w h k HI Hk Ha) as [H1 H2].
+    rewrite Ha in *. auto.
+  - (* OSetTrain *)
+    rewrite map_length. destruct (nth_error (w_mods w) m) as [md|] eqn:Hm.
+    + pose proof (nth_error_Some_lt _ _ _ Hm) as Hlt. rewrite (proj2 (Nat.ltb_lt _ _) Hlt). simpl.
+      split; [split|split; auto].
+      * apply sinv_train; auto.
+      * intros hi k Hk Ha. simpl in *. rewrite upd_length. apply (HP hi k Hk Ha).
+      * unfold abs; simpl. rewrite map_upd. reflexivity.
+    + apply nth_error_None in Hm. destruct (Nat.ltb_spec m (length (w_mods w))); try lia. simpl; auto.
+  - (* OSetExec *)
+    apply Hwith. intros k Hk Ha. simpl.
+    split; [|split; auto].
+    + destruct train; apply (setexec_sound w h k _ HI Hk Ha); reflexivity.
+    + unfold set_hook. rewrite abs_upd. unfold a_set. destruct train; reflexivity.
+  - (* OCall *)
+    rewrite map_length. destruct (Nat.ltb_spec m (length (w_mods w))) as [Hm|Hm].
+    + rewrite (call_ok w m fail HS Hm). simpl. auto.
+    + unfold call. rewrite (proj2 (nth_error_None _ _) Hm). simpl. auto.
+  - (* OManual *)
+    apply Hwith. intros k Hk Ha. simpl a_cfg. destruct (c_kind (k_cfg k)) eqn:Ck; simpl; auto.
+    pose proof (p_mod _ _ (HP h k Hk Ha) Ck) as Hm. unfold manual.
+    destruct (nth_error (w_mods w) (c_mod (k_cfg k))) eqn:E; [|apply nth_error_None in E; lia].
+    destruct (registered k || force); simpl; auto.
+    destruct ignore; simpl; auto.
+    destruct (k_te k && m_training m); simpl; auto.
+    destruct (k_ee k && negb (m_training m)); simpl; auto.
+  - (* ODelete *)
+    apply Hwith. intros k Hk Ha. simpl fst. simpl snd.
+    destruct (delete_sound w h k HI Hk Ha) as [H1 H2]. simpl in H1, H2. auto.
+Qed.
+
+(* ====================================================================== whole histories *)
+Lemma inv_init n : Inv (w0 n).
+Proof.
+  split.
+  - constructor; simpl.
+    + intros m pre e. unfold mod_lst. destruct (nth_error (repeat _ n) m) eqn:E; [|intros []].
+      apply nth_error_In, repeat_spec in E. subst. destruct pre; intros [].
+    + intros m pre. unfold mod_lst. destruct (nth_error (repeat _ n) m) eqn:E; [|constructor].
+      apply nth_error_In, repeat_spec in E. subst. destruct pre; constructor.
+    + intros hi k pre hd Hk. destruct hi; discriminate.
+  - intros hi k Hk. destruct hi; discriminate.
+Qed.
+
+Lemma abs_init n : abs (w0 n) = a0 n.
+Proof. unfold abs, w0, a0; simpl. f_equal. induction n; simpl; congruence. Qed.
+
+Lemma run_sound w ops :
+  Inv w -> forallb safe_op ops = true ->
+  Inv (fst (run w ops)) /\ abs (fst (run w ops)) = arun (abs w) ops.
+Proof.
+  revert w; induction ops as [|o tl IH]; simpl; intros w HI Hs; auto.
+  apply andb_prop in Hs. destruct Hs as [Ho Hs].
+  destruct (step_sound w o HI Ho) as [H1 [H2 _]].
+  destruct (step w o) as [[w' ev] e]. simpl in *.
+  destruct (IH w' H1 Hs) as [H3 H4]. destruct (run w' tl) as [w'' outs]. simpl in *.
+  rewrite <- H2. auto.
+Qed.
+
+Lemma run_app w l1 l2 :
+  run w (l1 ++ l2) = (fst (run (fst (run w l1)) l2), snd (run w l1) ++ snd (run (fst (run w l1)) l2)).
+Proof.
+  revert w; induction l1 as [|o tl IH]; simpl; intros w.
+  - destruct (run w l2); reflexivity.
+  - destruct (step w o) as [[w' ev] e]. rewrite IH. destruct (run w' tl) as [w1 o1]. simpl.
+    destruct (run w1 l2); reflexivity.
+Qed.
+
+Lemma astep_train_length a o : length (a_train (fst (astep a o))) = length (a_train a).
+Proof.
+  assert (Hw : forall h f, (forall k, length (a_train (fst (f k))) = length (a_train a)) ->
+                           length (a_train (fst (a_with a h f))) = length (a_train a)).
+  { intros h f Hf. unfold a_with. destruct (nth_error (a_hooks a) h) as [k0|]; auto. destruct (a_alive k0); auto. }
+  destruct o; simpl.
+  - destruct (negb (state_cfg_ok c)); auto. destruct (c_kind c);
+      try (destruct (c_pre c || c_post c); auto); destruct (c_mod c <? length (a_train a)); auto.
+  - apply Hw. intros k. unfold a_register.
+    destruct (c_kind (a_cfg k)); try (destruct (is_some (a_reg k)); auto);
+      try (destruct (negb (m <? length (a_train a))); auto);
+      try (destruct (negb (c_mod (a_cfg k) <? length (a_train a))); auto);
+      destruct (negb (kwargs_ok (a_cfg k))); auto.
+  - apply Hw. auto.
+  - destruct (m <? length (a_train a)); simpl; auto. apply upd_length.
+  - apply Hw. auto.
+  - auto.
+  - apply Hw. intros k. destruct (c_kind (a_cfg k)); auto.
+  - apply Hw. auto.
+Qed.
+
+Lemma arun_train_length a ops : length (a_train (arun a ops)) = length (a_train a).
+Proof. revert a; induction ops; simpl; intros; auto. rewrite IHops. apply astep_train_length. Qed.
+
+Lemma reach_mods_length n ops :
+  forallb safe_op ops = true -> length (w_mods (fst (run (w0 n) ops))) = n.
+Proof.
+  intros Hs. destruct (run_sound (w0 n) ops (inv_init n) Hs) as [_ Ha].
+  rewrite <- abs_length_train, Ha, arun_train_length, abs_init. unfold a0; simpl. apply repeat_length.
+Qed.
+
+(* FLAGSHIP: for every history of operations (hooks outside the fault pattern), every module and
+   either outcome of its forward, the module call emits  pre-fires ++ [forward] ++ post-fires  where
+   each hook object fires exactly once in its configured position iff the handle-free abstract
+   machine, run on the same history, says it is alive, registered on that module and enabled for the
+   module's mode (post position: and forward succeeded or always_call); the call itself raises
+   nothing but forward's own exception; the world is unchanged by the call. *)
+Theorem fires_iff_armed n ops m fail :
+  forallb safe_op ops = true -> m < n ->
+  let w := fst (run (w0 n) ops) in
+  let a := arun (a0 n) ops in
+  exists pres posts,
+    step w (OCall m fail) = (w, pres ++ EFwd m :: posts, if fail then Some EValue else None) /\
+    (forall h, count_fire h pres = b2n (a_fires_pre a h m)) /\
+    (forall h, count_fire h posts = b2n (a_fires_post a h m fail)) /\
+    (forall x, In x pres -> exists h, x = EFire h (a_tag a h true)) /\
+    (forall x, In x posts -> exists h, x = EFire h (a_tag a h false)).
+Proof.
+  intros Hs Hm w a.
+  destruct (run_sound (w0 n) ops (inv_init n) Hs) as [HI Ha]. rewrite abs_init in Ha. fold w in HI, Ha. fold a in Ha.
+  assert (Hl : m < length (w_mods w)) by (unfold w; rewrite reach_mods_length; auto).
+  destruct (call_spec w m fail HI Hl) as [pres [posts [Hc H]]]. rewrite Ha in H.
+  exists pres, posts. split; auto. simpl. rewrite Hc. reflexivity.
+Qed.
+
+(* ---------------------------------------------------------------------- no dangling handle *)
+Lemma filter_map_comm {X Y} (g : X -> Y) (p : Y -> bool) l : filter p (map g l) = map g (filter (fun x => p (g x)) l).
+Proof. induction l; simpl; auto. destruct (p (g a)); simpl; congruence. Qed.
+
+Lemma filter_seq_length {X} (p : X -> bool) (l : list X) :
+  length (filter (fun i => match nth_error l i with Some x => p x | None => false end) (seq 0 (length l)))
+  = length (filter p l).
+Proof.
+  induction l; simpl; auto.
+  assert (E : length (filter (fun i => match nth_error (a :: l) i with Some x => p x | None => false end)
+                             (seq 1 (length l))) = length (filter p l)).
+  { rewrite <- seq_shift, filter_map_comm, map_length. simpl. exact IHl. }
+  destruct (p a); simpl; rewrite E; auto.
+Qed.
+
+Theorem no_dangling_state w :
+  Inv w ->
+  (forall m q e, In e (mod_lst (w_mods w) m q) ->
+     exists k, nth_error (w_hooks w) (e_hook e) = Some k /\ k_alive k = true /\
+               hnd k q = Some (mkHandle m q (e_id e))) /\
+  (forall m q, length (mod_lst (w_mods w) m q) = a_count (abs w) m q).
+Proof.
+  intros [HS HP]. split.
+  - intros m q e Hin. destruct (s_entries _ HS m q e Hin) as [_ [k [H1 [H2 [H3 _]]]]]. eauto.
+  - intros m q. unfold a_count, abs; simpl.
+    rewrite <- (map_length e_hook).
+    rewrite <- (filter_seq_length (a_on m q) (map abs_hook (w_hooks w))).
+    apply Permutation_length, NoDup_Permutation.
+    + apply sinv_nodup_hooks; auto.
+    + apply NoDup_filter, seq_NoDup.
+    + intros h. rewrite filter_In, in_seq, map_length, nth_error_map.
+      pose proof (existsb_entry w m q h (fun _ => true) HS) as Hex.
+      rewrite in_map_iff. split.
+      * intros [e [He Hin]].
+        assert (Hx : existsb (fun e0 => (e_hook e0 =? h) && true) (mod_lst (w_mods w) m q) = true).
+        { apply existsb_exists. exists e. rewrite He, Nat.eqb_refl. auto. }
+        apply Hex in Hx. destruct Hx as [k [i [Hk [Ha [Hh _]]]]].
+        pose proof (nth_error_Some_lt _ _ _ Hk). split; [lia|]. rewrite Hk. simpl.
+        destruct (proj1 (reg_iff _ k q m (HP h k Hk Ha) Ha) (ex_intro _ i Hh)) as [R1 R2].
+        unfold a_on. simpl. rewrite Ha, R1, R2. reflexivity.
+      * intros [_ Hp]. destruct (nth_error (w_hooks w) h) as [k|] eqn:Hk; simpl in Hp; [|discriminate].
+        unfold a_on in Hp. simpl in Hp.
+        apply andb_prop in Hp. destruct Hp as [Hp R2]. apply andb_prop in Hp. destruct Hp as [Ha R1].
+        destruct (proj2 (reg_iff _ k q m (HP h k Hk Ha) Ha) (conj R1 R2)) as [i Hi].
+        assert (Hx : existsb (fun e0 => (e_hook e0 =? h) && true) (mod_lst (w_mods w) m q) = true).
+        { apply Hex. exists k, i. auto. }
+        apply existsb_exists in Hx. destruct Hx as [e [Hin He]]. exists e. split; auto.
+        apply andb_prop in He. destruct He as [He _]. apply Nat.eqb_eq in He. auto.
+Qed.
+
+(* for every history: every registered lambda refers to a live hook object that holds its handle (so
+   deregister / the finalizer will remove it), the dictionaries have exactly the size the abstract
+   machine predicts, and no module call ever raises the dangling-reference AttributeError *)
+Theorem no_dangling_handle n ops :
+  forallb safe_op ops = true ->
+  let w := fst (run (w0 n) ops) in
+  let a := arun (a0 n) ops in
+  (forall m q e, In e (mod_lst (w_mods w) m q) ->
+     exists k, nth_error (w_hooks w) (e_hook e) = Some k /\ k_alive k = true /\
+               hnd k q = Some (mkHandle m q (e_id e))) /\
+  (forall m q, length (mod_lst (w_mods w) m q) = a_count a m q) /\
+  (forall m fail, snd (call w m fail) <> Some EAttr).
+Proof.
+  intros Hs w a. destruct (run_sound (w0 n) ops (inv_init n) Hs) as [HI Ha]. rewrite abs_init in Ha.
+  fold w in HI, Ha. fold a in Ha. destruct (no_dangling_state w HI) as [H1 H2]. rewrite Ha in H2.
+  split; [|split]; auto.
+  intros m fail. destruct (Nat.ltb_spec m (length (w_mods w))) as [Hm|Hm].
+  - rewrite (call_ok w m fail (proj1 HI) Hm). simpl. destruct fail; discriminate.
+  - unfold call. rewrite (proj2 (nth_error_None _ _) Hm). simpl. discriminate.
+Qed.
+
+(* ---------------------------------------------------------------------- manual calls *)
+Theorem manual_call_state w h k force ignore :
+  Inv w -> nth_error (w_hooks w) h = Some k -> k_alive k = true -> c_kind (k_cfg k) = KState ->
+  step w (OManual h force ignore) =
+  (w, if a_fires_manual (abs w) h force ignore then [EFire h 2] else [], None).
+Proof.
+  intros [HS HP] Hk Ha Ck. simpl. unfold with_hook. rewrite Hk, Ha, Ck.
+  pose proof (p_mod _ _ (HP h k Hk Ha) Ck) as Hm. unfold manual, a_fires_manual.
+  rewrite nth_error_abs_hooks, Hk. simpl. rewrite nth_error_map.
+  destruct (nth_error (w_mods w) (c_mod (k_cfg k))) as [md|] eqn:E; [|apply nth_error_None in E; lia].
+  simpl. rewrite Ha, (is_some_abs_reg k Ha). simpl.
+  destruct (registered k || force); simpl; auto.
+  unfold a_armed; simpl.
+  destruct ignore; simpl; auto.
+  destruct (k_te k && m_training md); simpl; auto.
+  destruct (k_ee k && negb (m_training md)); simpl; auto.
+Qed.
+
+(* statehook(force, ignore_mode), for every history: runs hook() exactly once iff
+   (registered or force) and (ignore_mode or enabled for the hooked module's mode); never changes state *)
+Theorem manual_call_rules n ops h ak force ignore :
+  forallb safe_op ops = true ->
+  let w := fst (run (w0 n) ops) in
+  let a := arun (a0 n) ops in
+  nth_error (a_hooks a) h = Some ak -> a_alive ak = true -> c_kind (a_cfg ak) = KState ->
+  step w (OManual h force ignore) = (w, if a_fires_manual a h force ignore then [EFire h 2] else [], None).
+Proof.
+  intros Hs w a Hh Hal Ck. destruct (run_sound (w0 n) ops (inv_init n) Hs) as [HI Ha]. rewrite abs_init in Ha.
+  fold w in HI, Ha. fold a in Ha. rewrite <- Ha in Hh. rewrite nth_error_abs_hooks in Hh.
+  destruct (nth_error (w_hooks w) h) as [k|] eqn:Hk; [|discriminate]. simpl in Hh. inversion Hh; subst ak.
+  rewrite <- Ha. apply (manual_call_state w h k); auto.
+Qed.
+
+(* ---------------------------------------------------------------------- never after deregistration / deletion *)
+Lemma a_unreg_set a h h' k' :
+  a_unreg a h -> (h' <> h \/ a_alive k' = false \/ a_reg k' = None) -> a_unreg (a_set a h' k') h.
+Proof.
+  unfold a_unreg, a_set; simpl. intros Hu Hc. rewrite nth_error_upd.
+  destruct (Nat.eqb_spec h' h) as [->|Hne]; simpl; auto.
+  destruct (h <? length (a_hooks a)) eqn:El; auto.
+  destruct Hc as [Hc|Hc]; [congruence|auto].
+Qed.
+
+Lemma astep_unreg a o h :
+  a_unreg a h -> not_register_of h o = true -> a_unreg (fst (astep a o)) h.
+Proof.
+  intros Hu Hn.
+  assert (Hw : forall h' f, (forall k, nth_error (a_hooks a) h' = Some k -> a_unreg (fst (f k)) h) ->
+                            a_unreg (fst (a_with a h' f)) h).
+  { intros h' f Hf. unfold a_with. destruct (nth_error (a_hooks a) h') as [k0|] eqn:E; auto.
+    destruct (a_alive k0); auto. }
+  destruct o; simpl.
+  - destruct (negb (state_cfg_ok c)); auto.
+    assert (Hf : a_unreg (mkAW (a_hooks a ++ [mkA c true te ee None]) (a_train a)) h).
+    { unfold a_unreg in *; simpl. destruct (nth_error (a_hooks a ++ _) h) as [k0|] eqn:E; auto.
+      apply nth_error_snoc in E. destruct E as [E|[_ ->]]; [rewrite E in Hu; auto|simpl; auto]. }
+    destruct (c_kind c); try (destruct (c_pre c || c_post c); auto); destruct (c_mod c <? length (a_train a)); auto.
+  - simpl in Hn. apply negb_true_iff, Nat.eqb_neq in Hn.
+    apply Hw. intros k Hk. unfold a_register.
+    destruct (c_kind (a_cfg k)); try (destruct (is_some (a_reg k)); auto);
+      try (destruct (negb (m <? length (a_train a))); auto);
+      try (destruct (negb (c_mod (a_cfg k) <? length (a_train a))); auto);
+      destruct (negb (kwargs_ok (a_cfg k))); auto; apply a_unreg_set; auto.
+  - apply Hw. intros k Hk. apply a_unreg_set; simpl; auto.
+  - destruct (m <? length (a_train a)); auto.
+  - apply Hw. intros k Hk. apply a_unreg_set; auto.
+    destruct (Nat.eq_dec h0 h) as [->|]; auto. right.
+    unfold a_unreg in Hu. rewrite Hk in Hu. destruct train; simpl; auto.
+  - auto.
+  - apply Hw. intros k Hk. destruct (c_kind (a_cfg k)); auto.
+  - apply Hw. intros k Hk. apply a_unreg_set; simpl; auto.
+Qed.
+
+Lemma arun_unreg a ops h :
+  a_unreg a h -> forallb (not_register_of h) ops = true -> a_unreg (arun a ops) h.
+Proof.
+  revert a; induction ops; simpl; intros a0 Hu Hn; auto.
+  apply andb_prop in Hn. destruct Hn. apply IHops; auto. apply astep_unreg; auto.
+Qed.
+
+Lemma astep_makes_unreg a o h : o = ODeregister h \/ o = ODelete h -> a_unreg (fst (astep a o)) h.
+Proof.
+  intros [->| ->]; simpl; unfold a_with;
+    destruct (nth_error (a_hooks a) h) as [k|] eqn:E.
+  - destruct (a_alive k) eqn:Ea; simpl.
+    + unfold a_unreg, a_set; simpl. rewrite nth_error_upd_eq; simpl; auto. eapply nth_error_Some_lt; eauto.
+    + unfold a_unreg. rewrite E. auto.
+  - unfold a_unreg. simpl. rewrite E. auto.
+  - destruct (a_alive k) eqn:Ea; simpl.
+    + unfold a_unreg, a_set; simpl. rewrite nth_error_upd_eq; simpl; auto. eapply nth_error_Some_lt; eauto.
+    + unfold a_unreg. rewrite E. auto.
+  - unfold a_unreg. simpl. rewrite E. auto.
+Qed.
+
+Lemma unreg_no_fire a h m fail force_false_ignore :
+  a_unreg a h ->
+  a_fires_pre a h m = false /\ a_fires_post a h m fail = false /\ a_fires_manual a h false force_false_ignore = false.
+Proof.
+  unfold a_unreg, a_fires_pre, a_fires_post, a_fires_manual, reg_on.
+  destruct (nth_error (a_hooks a) h) as [k|]; auto.
+  intros [Hd|Hr].
+  - rewrite Hd. simpl. destruct (nth_error (a_train a) m); destruct (nth_error (a_train a) (c_mod (a_cfg k))); auto.
+  - rewrite Hr. simpl. rewrite !andb_false_r. simpl.
+    destruct (nth_error (a_train a) m); destruct (nth_error (a_train a) (c_mod (a_cfg k))); auto.
+Qed.
+
+Lemma arun_app a l1 l2 : arun a (l1 ++ l2) = arun (arun a l1) l2.
+Proof. revert a; induction l1; simpl; auto. Qed.
+
+(* once a hook object has been deregistered or deleted, then - whatever happens afterwards, short of
+   registering it again - no module call runs it, in either position, in either mode, and a manual
+   call without force does not run it either *)
+Theorem never_after_deregister_or_delete n ops1 o ops2 h m fail ignore :
+  forallb safe_op (ops1 ++ o :: ops2) = true ->
+  o = ODeregister h \/ o = ODelete h ->
+  forallb (not_register_of h) ops2 = true ->
+  let w := fst (run (w0 n) (ops1 ++ o :: ops2)) in
+  count_fire h (snd (fst (step w (OCall m fail)))) = 0 /\
+  count_fire h (snd (fst (step w (OManual h false ignore)))) = 0.
+Proof.
+  intros Hs Ho Hn w.
+  destruct (run_sound (w0 n) _ (inv_init n) Hs) as [HI Ha]. rewrite abs_init in Ha. fold w in HI, Ha.
+  assert (Hu : a_unreg (abs w) h).
+  { rewrite Ha, arun_app. simpl. apply arun_unreg; auto. apply astep_makes_unreg; auto. }
+  destruct (unreg_no_fire (abs w) h m fail ignore Hu) as [U1 [U2 U3]].
+  split.
+  - simpl. destruct (Nat.ltb_spec m (length (w_mods w))) as [Hm|Hm].
+    + destruct (call_spec w m fail HI Hm) as [pres [posts [Hc [H1 [H2 _]]]]]. rewrite Hc. simpl.
+      rewrite count_fire_app. unfold count_fire at 2. simpl. fold (count_fire h posts).
+      rewrite H1, H2, U1, U2. reflexivity.
+    + unfold call. rewrite (proj2 (nth_error_None _ _) Hm). reflexivity.
+  - destruct (nth_error (w_hooks w) h) as [k|] eqn:Hk.
+    + destruct (k_alive k) eqn:Hal.
+      * destruct (c_kind (k_cfg k)) eqn:Ck.
+        -- simpl. unfold with_hook. rewrite Hk, Hal, Ck. reflexivity.
+        -- simpl. unfold with_hook. rewrite Hk, Hal, Ck. reflexivity.
+        -- rewrite (manual_call_state w h k false ignore HI Hk Hal Ck), U3. reflexivity.
+      * simpl. unfold with_hook. rewrite Hk, Hal. reflexivity.
+    + simpl. unfold with_hook. rewrite Hk. reflexivity.
+Qed.
+
+(* ---------------------------------------------------------------------- registering twice *)
+Theorem register_twice_rejected w h k m :
+  nth_error (w_hooks w) h = Some k -> k_alive k = true -> registered k = true ->
+  step w (ORegister h m) =
+  (w, [], match c_kind (k_cfg k) with KState => None | _ => Some ERuntime end).
+Proof.
+  intros Hk Ha R. simpl. unfold with_hook. rewrite Hk, Ha.
+  destruct (c_kind (k_cfg k)); unfold hook_register; rewrite R; reflexivity.
+Qed.
+
+(* Hook.deregister is safe to call on an unregistered hook: nothing changes *)
+Theorem deregister_unregistered_noop w h k :
+  Inv w -> nth_error (w_hooks w) h = Some k -> k_alive k = true -> registered k = false ->
+  step w (ODeregister h) = (w, [], None).
+Proof.
+  intros [HS HP] Hk Ha R. simpl. unfold with_hook. rewrite Hk, Ha. unfold hook_deregister.
+  destruct (registered_false k R) as [Ep Eq]. rewrite Ep, Eq. unfold detach_handles; simpl.
+  pose proof (p_fin _ _ (HP h k Hk Ha)) as Hf. rewrite R in Hf.
+  replace (mkHook (k_cfg k) (k_alive k) (k_te k) (k_ee k) None None None) with k
+    by (destruct k; simpl in *; subst; reflexivity).
+  rewrite (upd_same _ _ _ Hk). destruct w; reflexivity.
+Qed.
+
+(* ---------------------------------------------------------------------- the fault pattern: refuted *)
+(* Hook(prehook, posthook, posthook_kwargs={"bogus": 1}); register raises after the pre-hook was registered;
+   the object is deleted; the module call raises AttributeError: a dangling handle *)
+Definition witness_ops : list op :=
+  [ONew (mkCfg KHook true true false false false false true 0) true true;
+   ORegister 0 0; ODelete 0; OCall 0 false].
+
+Theorem partial_register_dangling_refuted :
+  exists ops, forallb safe_op ops = false /\
+    let w := fst (run (w0 1) ops) in
+    snd (run (w0 1) ops) = [([], None); ([], Some EType); ([], None); ([], Some EAttr)] /\
+    (exists e, In e (mod_lst (w_mods w) 0 true) /\
+               forall k, nth_error (w_hooks w) (e_hook e) = Some k -> k_alive k = false).
+Proof.
+  exists witness_ops. split; [reflexivity|]. split; [reflexivity|].
+  exists (mkEntry 0 0 false). split; [simpl; auto|].
+  intros k Hk. vm_compute in Hk. inversion Hk. reflexivity.
+Qed.
